@@ -43,6 +43,11 @@ def int64Max : Int := 9223372036854775807
 /-- `big.Int.IsInt64`. -/
 def isInt64 (x : Int) : Bool := decide (int64Min ≤ x) && decide (x ≤ int64Max)
 
+/-- a Go `int64` value. -/
+def InRange (x : Int) : Prop := int64Min ≤ x ∧ x ≤ int64Max
+
+instance (x : Int) : Decidable (InRange x) := by unfold InRange; infer_instance
+
 /-- `std.GasPrice{Gas, Price: std.Coin{Denom, Amount}}`. -/
 structure GasPrice where
   gas : Int
